@@ -115,6 +115,9 @@ type Target struct {
 	// the target without a reply to it (the request is logged, not executed);
 	// every other connection lives on — a dropped connection, not a crash.
 	DropAt map[int]bool
+	// XGroupKey (opt-in, C20): XGROUP <sub> <key> … is filed under its key (the
+	// second argument) instead of under the generic "first argument".
+	XGroupKey bool
 }
 
 func NewTarget() *Target {
@@ -665,6 +668,9 @@ func (t *Target) exec(c *connState, args [][]byte) reply {
 		return ok()
 	}
 	ty := dataType(cmd)
+	if t.XGroupKey && cmd == "xgroup" && len(a) >= 2 {
+		a = append([][]byte{a[1]}, a...) // s(0) is the key below; the logged op keeps the request as sent
+	}
 	v := t.get(c.db, s(0))
 	if v == nil {
 		v = &Val{Kind: "data:" + ty}
